@@ -9,6 +9,11 @@ def cmd(pid, tier):
 
 # id -> (category, engine, technique, level text, level note, design ref)
 CHECKS = {
+ "C04": ("model_checking", "SCHED",
+   "stateless DFS over all release orders of peer actions, puppet-handler steps, stop() and the library's cfg points on real in-memory WebSocket connections; trace monitor",
+   "Scenarios = peer scripts {subscribe, unsubscribe own/foreign, call, close frame, abrupt drop} x handler scripts {accept, reject, drop pending, send, try_send, is_closed, closed().await, clone, return none/error/close message} x stop x point masks (harness only / subscription-sink points / all server points), 1-2 connections, 1-2 subscriptions; whole tree when <= 15k (thorough 400k) executions, else <= 2 (thorough 3) deviations. Monitor: every notification frame carries a subscription id accepted on that connection and the right method name, comes after the accepting response, payloads are a prefix of the handler's successful sends in order, rejected/never-accepted subscriptions produce nothing, at most one closing notification, and after the server-exposed close instant (unsubscribe true seen by the peer / on_session_closed / stopped) every later-started send fails and is_closed() is true.",
+   "Preemption only at points; closing instants are those the server exposes.",
+   "DESIGN.md §6 C04"),
  "C18": ("model_checking", "HIST+SCHED",
    "explicit-state BFS over client operation histories (each event run on the real client to quiescence), canonical key = reference lifecycle state + the four table sizes read through the accessor hook; plus SCHED over drop-under-backpressure interleavings and long fixed repetitions",
    "BFS from a 34-event menu (call, batch, two subscriptions, notification handler and every server answer: ok/error/malformed id/duplicate id, abandon-before-ack, notification, lag, unsubscribe, drop, acknowledgement, server close, stale responses re-using finished ids) to depth 12 (thorough: to the fixpoint, 2.8k states); in every state each table is bounded by what is outstanding and with nothing outstanding all four tables are empty; a stale id behaves like a never-used id. SCHED: handler/subscription dropped while the request queue is full, all interleavings. 200x/1000x repetitions of each lifecycle with constant sizes.",
